@@ -84,7 +84,7 @@ func compareWithModel(c *hx.Ctx, u *Universe, ops []*ref.Op, order []int, tag st
 }
 
 func checkC03(c *hx.Ctx) {
-	c.Rule("history = create followed by every sequence (with repetition) of the 49-label operation alphabet (valid, forked, failing-delta incl. patches the JSON patch library panics on, out-of-window, bad-signature, wrong key kind, replayed, cyclic) up to the tier's length, anchored at increasing times with adversarial transaction numbers, plus random long histories (half of them also with a random part of the operations supplied through WithAdditionalOperations); a history is non-trivial when the reference model applies at least two operations; distinct = distinct (history,coordinates) strings")
+	c.Rule("history = create followed by every sequence (with repetition) of the 52-label operation alphabet (valid, forked, failing-delta incl. patches the JSON patch library panics on, out-of-window, bad-signature, wrong key kind, replayed, cyclic) up to the tier's length, anchored at increasing times with adversarial transaction numbers, plus two-DID histories of client-built operations anchored round by round through the real batch files, plus random long histories (half of them also with a random part of the operations supplied through WithAdditionalOperations); a history is non-trivial when the reference model applies at least two operations; distinct = distinct (history,coordinates) strings")
 	c.Assume("the reference state machine in harness/ref/sidetree.go encodes the property statements C01-C06/C12", "Go crypto and btcec are trusted")
 	rng := c.Rng("universe")
 	p := hx.BaseProtocol()
@@ -189,8 +189,11 @@ func checkC03(c *hx.Ctx) {
 			}
 		})
 	}
+	// histories of two DIDs anchored through the REAL batch files (handler, CAS, provider, transaction processor)
+	chainsThroughBatchFiles(c, c.N(60, 1200))
+	c.Floor("batch_file_rounds", 100)
 	// floors
-	for _, l := range []string{"u01", "u02", "u12", "uF", "uW", "r01", "rB", "rI", "rF", "rW", "r12", "d0", "d1", "uJP", "rJP", "rWd", "dWd", "uPF", "u12PF"} {
+	for _, l := range []string{"u01", "u02", "u12", "uF", "uW", "r01", "rB", "rI", "rF", "rW", "r12", "d0", "d1", "uJP", "rJP", "rWd", "dWd", "uPF", "u12PF", "uAka", "u12Rep", "uAkaRep"} {
 		c.Floor("applied:"+l, 1)
 	}
 	for _, l := range []string{"u10", "u00", "uS", "uT", "uM", "uI", "uX", "uR", "r00", "rS", "dS", "dO", "dW", "dR", "rR", "uND", "rSB", "rTI", "uSF", "Cdup", "u01", "rU", "dU", "uRk", "uTc"} {
